@@ -224,7 +224,8 @@ def check_errors(ctx, req, resp, ref, case, prop_name="errors"):
         elif nodes:
             for loc in locs:
                 if not (isinstance(loc, dict) and any(docgen.in_span(n.span, loc.get("line"), loc.get("column")) for n in nodes)):
-                    problems.append(("location-outside-field", "%s not inside %s" % (loc, [n.span for n in nodes])))
+                    tag = "[sdl-default]" if any(getattr(c, "sdl_default", False) for c in possible[tuple(p)]) else ""
+                    problems.append(("location-outside-field" + tag, "%s not inside %s" % (loc, [n.span for n in nodes])))
         cands = possible[tuple(p)]
         if len(cands) == 1 and cands[0].kind == "raise_tf":
             r = cands[0]
